@@ -52,7 +52,7 @@ struct time_point {
     template <typename Dur2>
         requires(is_convertible_v<Dur2, duration>)
     constexpr time_point(time_point<clock, Dur2> const& t)
-        : _d{t.time_since_epch()}
+        : _d{t.time_since_epoch()}
     {
     }
 
